@@ -2,8 +2,10 @@
 import itertools
 import json
 import os
+import re
 import shutil
 import tempfile
+import urllib.parse
 
 import numpy as np
 
@@ -13,7 +15,8 @@ from ..httpsrv import Server
 RULE = ("loopback static server emulating the documented configuration (flat chunk URLs mapped onto flat / "
         "sub-directory layouts, .gz with Content-Encoding, Range for shards); datasets: plain (4 layouts) and "
         "sharded with one and TWO scales (raw/gzip encodings, bit triples in 0..3), single .shard files and "
-        "legacy .index/.data pairs; URL spellings with/without trailing slash and precomputed://; every info "
+        "legacy .index/.data pairs; URL spellings with/without trailing slash and precomputed://, dataset directories whose names hold a "
+        "space or non-ASCII letters addressed by their percent-encoded URL; every info "
         "and chunk fetched through get_accessor_for_url(http://…) and compared with the local accessor; "
         "dispatch with and without the sharding option; persistent faults per resource: 404, 403, 429, 500, "
         "502, 503, 504, short and over-long bodies, Range ignored, connection dropped mid-body. "
@@ -63,13 +66,18 @@ def run(ctx):
         srv = None
         try:
             # ---------------- plain dataset ----------------
-            base = os.path.join(tmp, "plain")
+            # directory names with a space or non-ASCII letters are addressed by their percent-encoded URL, as a
+            # browser or Neuroglancer itself would send it
+            pname = rng.choice(["plain", "plain", "my data", "donn\u00e9es 2"])
+            sname = rng.choice(["sh", "sh", "sharded set", "sch\u00e4rfe"])
+            pq, sq = urllib.parse.quote(pname), urllib.parse.quote(sname)
+            base = os.path.join(tmp, pname)
             os.makedirs(base)
             cfg, info, chunks = plain_dataset(rng, base)
             srv = Server(tmp)
-            spell = rng.choice(["{u}/plain", "{u}/plain/", "precomputed://{u}/plain", "{u}/plain/?x=1#frag"])
-            url = spell.format(u=srv.url)
-            desc = {"dataset": "plain", "layout": cfg, "url_form": spell}
+            spell = rng.choice(["{u}/{p}", "{u}/{p}/", "precomputed://{u}/{p}", "{u}/{p}/?x=1#frag"])
+            url = spell.format(u=srv.url, p=pq)
+            desc = {"dataset": "plain", "layout": cfg, "url_form": spell, "directory": pname}
             try:
                 acc = get_accessor_for_url(url, {"sharding": None} if rng.random() < 0.5 else {})
             except Exception as exc:  # noqa
@@ -79,8 +87,13 @@ def run(ctx):
                 ctx.oracle_fail("a dataset whose info does not declare sharding was dispatched to the sharded reader", desc)
                 continue
             local = FileAccessor(base, **cfg)
-            if acc.fetch_file("info") != local.fetch_file("info"):
-                ctx.oracle_fail("info fetched over HTTP differs from the local file", desc)
+            try:
+                http_info = acc.fetch_file("info")
+            except Exception as exc:  # noqa
+                http_info = f"!{type(exc).__name__}: {exc}"[:200]
+            if http_info != local.fetch_file("info"):
+                ctx.oracle_fail("info fetched over HTTP differs from the local file", dict(desc, got=str(http_info)[:200]))
+                continue
             for c, b in chunks.items():
                 try:
                     got = acc.fetch_chunk("k", c)
@@ -111,7 +124,7 @@ def run(ctx):
                 pat = "k/%d-%d_%d-%d_%d-%d" % c0
                 for fk in [{"kind": "status", "code": code} for code in (403, 404, 429, 500, 502, 503, 504)] + [{"kind": "drop"}]:
                     srv.set_faults([(pat, fk)])
-                    facc = get_accessor_for_url(srv.url + "/plain/")
+                    facc = get_accessor_for_url(srv.url + "/" + pq + "/")
                     try:
                         r = facc.fetch_chunk("k", c0)
                         res = f"ok {len(r)}"
@@ -136,7 +149,7 @@ def run(ctx):
                             ctx.oracle_fail(f"file_exists surfaced {type(exc).__name__}", dict(desc, fault=fk))
                 srv.set_faults([])
             # ---------------- sharded dataset, two scales ----------------
-            sbase = os.path.join(tmp, "sh")
+            sbase = os.path.join(tmp, sname)
             ds1 = shardlib.gen_dataset(rng, small=True)
             ds2 = shardlib.gen_dataset(rng, small=True)
             ds2.update({"m": ds1["m"], "s": ds1["s"], "p": ds1["p"]})
@@ -160,10 +173,10 @@ def run(ctx):
                             with open(os.path.join(d, name[:-6] + ".data"), "wb") as f:
                                 f.write(raw[cut:])
                             os.unlink(os.path.join(d, name))
-            sdesc = {"dataset": "sharded", "legacy_index_data": legacy,
+            sdesc = {"dataset": "sharded", "directory": sname, "legacy_index_data": legacy,
                      "bits": [ds1["m"], ds1["s"], ds1["p"]], "enc": [ds1["index_enc"], ds1["data_enc"]]}
             try:
-                surl = srv.url + "/sh" + rng.choice(["", "/"])
+                surl = srv.url + "/" + sq + rng.choice(["", "/"])
                 hacc = get_accessor_for_url(surl)
             except Exception as exc:  # noqa
                 ctx.oracle_fail(f"opening a sharded HTTP dataset raised {type(exc).__name__}: {exc}", sdesc)
@@ -269,9 +282,9 @@ def run(ctx):
                 for fk in [{"kind": "status", "code": 404}, {"kind": "status", "code": 500}, {"kind": "status", "code": 503},
                            {"kind": "short", "method": "GET"}, {"kind": "long", "method": "GET"},
                            {"kind": "ignore-range", "method": "GET"}, {"kind": "drop", "method": "GET"}]:
-                    srv.set_faults([(r"/sh/k/.*\.(shard|data|index)$", fk)])
+                    srv.set_faults([("/" + re.escape(sq) + r"/k/.*\.(shard|data|index)$", fk)])
                     try:
-                        f2 = get_accessor_for_url(srv.url + "/sh/")
+                        f2 = get_accessor_for_url(srv.url + "/" + sq + "/")
                         r = f2.fetch_chunk("k", shardlib.coords_of(ds1, cell))
                         if r != ds1["payload"][cell]:
                             ctx.oracle_fail("a faulty shard transfer returned wrong bytes instead of an error",
